@@ -110,7 +110,12 @@ def responder_case(ck, rng, thr, e, h, variant, i, own=0):
             m = codec.decode(rep, strict_bodies=False)
             c = next((x['data'] for x in m['payloads'] if x['type'] == codec.NOTIFY and x.get('ntype') == 16390), None)
             if c is not None:
-                d2, *_ = request(rng, [c], spi, nonce, ke)
+                # answered with the cookie the reference computes (a challenge that differs from it is a finding of its own, and must not starve the rest of the case)
+                c_ref = cookie_for(bytes(hub.ctl.cookie_secret), spi, nonce, P1A)
+                ck.count('responder.challenges_during_fill')
+                if c != c_ref:
+                    ck.violation('cookie-is-not-hmac-of-spi-nonce-and-source-address', {'got': c, 'want': c_ref, 'phase': 'filling the table'}, sim.case)
+                d2, *_ = request(rng, [c_ref], spi, nonce, ke)
                 sim.inject(hub, P1A, HUB, d2)
                 sim.net.clear()
                 if pool_n:
